@@ -64,6 +64,27 @@ CHECKS["C08"] = dict(
                               "executions in the bounded input domain"),
     design_ref="DESIGN.md section 4 C08", engine="FortranSem")
 
+ACC_TECH = ("TLA+ operational semantics with access tracking (FortranSem.tla track records) executed by "
+            "TLC on every input of a bounded domain; the sets the real analysis reports are validated "
+            "against the locations actually read/written (SemAccess.tla)")
+CHECKS["C11"] = dict(
+    level="model_checking",
+    text=("For every statement (assignments incl. sections/intrinsics/index arrays, loops, IFs, WHILE, calls "
+          "to interpreted routines with out/inout dummies, intrinsic subroutines) of generated routines the "
+          "signatures VariablesAccessInfo reports are compared by TLC with the variables every execution of "
+          "that statement actually reads / writes under FortranSem.tla, for all inputs of the domain; plus "
+          "reads-before-write order in the target's access list."),
+    note=SEM_NOTE + " Name-level comparison; the family has no structure components yet.",
+    technique=ACC_TECH, design_ref="DESIGN.md section 4 C11", engine="FortranSem")
+CHECKS["C12"] = dict(
+    level="model_checking",
+    text=("For every region of 1-4 consecutive statements of generated routines (partial array writes, "
+          "conditional and zero-trip writes, index arrays) the input/output lists of "
+          "CallTreeUtils.get_in_out_parameters and the ProvideVariable calls written by an applied ExtractTrans "
+          "are validated by TLC: upward-exposed reads are inputs, writes are outputs, and the replay clause "
+          "(region re-executed with everything but the inputs undefined reproduces the outputs)."),
+    note=SEM_NOTE, technique=ACC_TECH, design_ref="DESIGN.md section 4 C12", engine="FortranSem")
+
 NOT_YET = {}
 
 ALL = [f"C{i:02d}" for i in range(1, 30)]
